@@ -20,6 +20,22 @@ def local_tables(f):
     for n in decls:
         if n.get('kind') == 'VarDecl' and '[' in qtype(n):
             init = var_init(n)
+            if init is not None and strip(init).get('kind') == 'StringLiteral' and 'char' in qtype(n):
+                # char T[] = "...": the bytes of the literal and its terminator (values as the element type reads them)
+                try:
+                    import ast as _ast
+                    v = strip(init).get('value', '')
+                    bs = _ast.literal_eval('b' + v) if v.startswith('"') else None
+                except Exception:
+                    bs = None
+                if bs is not None:
+                    from .expr import array_len
+                    ln = array_len(qtype(n)) or (len(bs) + 1)
+                    vals = list(bs) + [0] * max(0, ln - len(bs))
+                    if 'unsigned' not in qtype(n):
+                        vals = [x - 256 if x > 127 else x for x in vals]
+                    out[n.get('name')] = (n, vals)
+                continue
             if init is None or strip(init).get('kind') != 'InitListExpr':
                 continue
             il = strip(init)
